@@ -1,0 +1,60 @@
+//go:build verif
+
+// Contracts for the verifier in /verif (comment-only; compiled only with -tags verif, adds no code).
+package schema
+
+// ---- C16/C03: the schema key is canonical. Whatever is marshalled has been sorted first - the labels by
+// ---- index, the attributes by name (the comparators are under contract in zz_verif_contracts.go and are
+// ---- checked to read the very slice being sorted) - and carries every label and every attribute key of
+// ---- the receiver; the key is the marshalled form of that sorted value on every path.
+//@ contract (schema.DependencyKeys).MarshalJSON (dk) (result, err)
+//@   ghost labelsSorted after sort.SliceStable#1 : true
+//@   ghost attrsSorted after sort.SliceStable#2 : true
+//@   ghost marshalled after json.Marshal#1 : true
+//@   assert before sort.SliceStable#1 : [C16,C03,name:all-labels-are-sorted] len(sk.Labels) == len(dk.Labels)
+//@   assert before sort.SliceStable#2 : [C16,C03,name:all-attribute-keys-are-sorted] len(sk.Attributes) == len(dk.Attributes)
+//@   assert before json.Marshal#1 : [C16,C03,name:labels-sorted-before-marshalling] implies(len(dk.Labels) > 1, labelsSorted)
+//@   assert before json.Marshal#1 : [C16,C03,name:attribute-keys-sorted-before-marshalling] implies(len(dk.Attributes) > 1, attrsSorted)
+//@   assert before json.Marshal#1 : [C16,name:every-key-is-part-of-the-schema-key] len(sk.Labels) == len(dk.Labels) && len(sk.Attributes) == len(dk.Attributes)
+//@   ensures [C16,C03] marshalled
+
+// ---- C16: the value part of an attribute key. A static value is part of the key exactly when there is
+// ---- one (and it is that value); the address part is the address, so that a reference and a literal - or
+// ---- two different references - never share a key.
+//@ contract (schema.ExpressionValue).MarshalJSON (ev) (result, err)
+//@   ghost addrBytes after (lang.Address).Marshal#1 : v
+//@   assert before (lang.Address).Marshal#1 : [C16,name:the-address-marshalled-is-the-one-of-this-key] arg0 == ev.Address
+//@   assert before json.Marshal#1 : [C16,name:address-is-part-of-the-key] typeis(arg0, "schema.exprVal") && as(arg0, "schema.exprVal").Address == string(addrBytes)
+//@   assert before json.Marshal#1 : [C16,name:static-value-is-part-of-the-key-when-there-is-one] (as(arg0, "schema.exprVal").Static != nil) == (ev.Static.Type() != cty.NilType)
+
+// ---- C09: the targets nested in a value. One per attribute of an object, per key of a map, per position of
+// ---- a list or tuple - none for null, primitive, dynamic and set values - each addressed by a COPY of the
+// ---- parent address extended by exactly one step: the attribute name as attribute step, the map key as a
+// ---- string index, the position as a number index; each carries the scope handed in and is built from the
+// ---- element's own value. The result is the slice sorted by address (C03: map iteration order is not seen).
+//@ spec extendsAddr(child lang.Address, parent lang.Address) bool = len(child) == len(parent) + 1 && !samearray(child, parent) && forall(j, 0, len(parent), child[j] == parent[j])
+//@ contract schema.targetableForValue (addr, scopeId, val) (result)
+//@   ensures [C09] result != nil && fresh(result) && result.Address == addr && result.ScopeId == scopeId
+//@   ensures [C09,name:null-is-of-unknown-type] result.AsType == ite(val.IsNull(), cty.DynamicPseudoType, val.Type())
+//@   assert before schema.NestedTargetablesForValue#1 : [C09,name:nested-targets-hang-under-the-address-of-the-target] arg0 == addr && arg1 == scopeId && arg2 == val
+//@ contract schema.NestedTargetablesForValue (address, scopeId, val) (result)
+//@   ensures [C09,name:nothing-nested-in-null] implies(val.IsNull(), result == nil)
+//@   ensures [C09,name:nothing-nested-in-primitives-and-sets] implies(typ.IsPrimitiveType() || typ == cty.DynamicPseudoType || typ.IsSetType(), result == nil)
+//@   assert before schema.targetableForValue#1 : [C09,name:attribute-step-by-name] extendsAddr(arg0, address) && typeis(arg0[len(address)], "lang.AttrStep") && as(arg0[len(address)], "lang.AttrStep").Name == key
+//@   assert before schema.targetableForValue#1 : [C09,name:own-value-and-scope] arg1 == scopeId && arg2 == val.GetAttr(key)
+//@   assert before schema.targetableForValue#2 : [C09,name:string-index-step-by-map-key] extendsAddr(arg0, address) && typeis(arg0[len(address)], "lang.IndexStep") && as(arg0[len(address)], "lang.IndexStep").Key == cty.StringVal(key)
+//@   assert before schema.targetableForValue#2 : [C09,name:own-scope] arg1 == scopeId
+//@   assert before schema.targetableForValue#3 : [C09,name:number-index-step-by-position] extendsAddr(arg0, address) && typeis(arg0[len(address)], "lang.IndexStep") && as(arg0[len(address)], "lang.IndexStep").Key == cty.NumberIntVal(int64(i))
+//@   assert before schema.targetableForValue#3 : [C09,name:own-scope] arg1 == scopeId
+//@   loop 1 iter [C09] len(nestedTargetables) == old(len(nestedTargetables)) + 1 && nestedTargetables[len(nestedTargetables)-1].Address == elAddr
+//@   loop 2 iter [C09] len(nestedTargetables) == old(len(nestedTargetables)) + 1 && nestedTargetables[len(nestedTargetables)-1].Address == elAddr
+//@   loop 3 iter [C09] len(nestedTargetables) == old(len(nestedTargetables)) + 1 && nestedTargetables[len(nestedTargetables)-1].Address == elAddr
+//@   loop 3 invariant [C09,claim] implies(!typ.IsObjectType() && !typ.IsMapType(), len(nestedTargetables) == rangeindex + 1)
+//@   ghost attrsListed after (cty.Type).AttributeTypes#1 : true
+//@   ghost itemsListed after (cty.Value).AsValueMap#1 : true
+//@   ghost elemsListed after (cty.Value).AsValueSlice#1 : true
+//@   ensures [C09,name:attributes-of-every-object-are-visited] implies(len(nestedTargetables) >= 0 && typ.IsObjectType(), attrsListed)
+//@   ensures [C09,name:items-of-every-map-are-visited] implies(len(nestedTargetables) >= 0 && typ.IsMapType(), itemsListed)
+//@   ensures [C09,name:elements-of-every-list-and-tuple-are-visited] implies(len(nestedTargetables) >= 0 && (typ.IsListType() || typ.IsTupleType()), elemsListed)
+//@   ensures [C09,name:one-target-per-list-or-tuple-element] implies(len(nestedTargetables) >= 0 && !typ.IsObjectType() && !typ.IsMapType() && (typ.IsListType() || typ.IsTupleType()), len(result) == len(val.AsValueSlice()))
+//@ returns-sorted schema.NestedTargetablesForValue C09,C03
